@@ -12,6 +12,8 @@
 package main
 
 import (
+	"database/sql"
+	"errors"
 	"fmt"
 	"os"
 	"strings"
@@ -34,6 +36,10 @@ type params struct {
 	// ReadFault: instead of a row-write fault at every position, one attempt fails on the READ path: the tree's node
 	// table is unreadable while the frontier is being rebuilt (after a restart, after a rolled-back attempt, after a reorg)
 	ReadFault bool
+	// Cancel: instead of a failing row write, the block's context is cancelled while the k-th row write executes
+	// (storekit.ProcessCancelledAt): database/sql rolls the transaction back from its watcher goroutine, the later
+	// statements and aggkit's own deferred Rollback see sql.ErrTxDone, so aggkit's rollback callbacks do not run
+	Cancel bool
 }
 
 var prefixes = map[sk.Kind][][]string{
@@ -108,6 +114,18 @@ func units(tier string) []mc.Unit {
 				}
 				name := fmt.Sprintf("%s:[%s]+%s+[%s]/readfault", store, strings.Join(pre, ","), blk, strings.Join(tails[store][0], ","))
 				us = append(us, mc.Unit{Name: name, Params: params{Store: store, Prefix: pre, Block: blk, Tail: tails[store][0], Slices: 1, ReadFault: true, TailRestart: true}})
+			}
+		}
+	}
+	// context cancelled in the middle of the block's transaction, at every row write
+	for _, store := range sk.Kinds {
+		for pi, pre := range prefixes[store] {
+			for _, blk := range faulted[store] {
+				if tier == "quick" && (pi > 2 || blk == "bridge3" || blk == "info3") {
+					continue
+				}
+				name := fmt.Sprintf("%s:[%s]+%s+[%s]/cancel", store, strings.Join(pre, ","), blk, strings.Join(tails[store][0], ","))
+				us = append(us, mc.Unit{Name: name, Params: params{Store: store, Prefix: pre, Block: blk, Tail: tails[store][0], Slices: 1, Cancel: true, TailRestart: tier == "thorough"}})
 			}
 		}
 	}
@@ -239,8 +257,12 @@ func run(c *mc.Ctx, u mc.Unit) {
 		compare(c, p, "failed-attempt-left-traces", a.Observe(chain), pre, ctxt)
 	}
 	for f := 0; f < maxFaults; f++ {
-		var ks []int // 0 = no fault
-		for k := 0; k <= K; k++ {
+		var ks []int // 0 = no fault, K+1 = the COMMIT fails
+		kmax := K + 1
+		if p.Cancel {
+			kmax = K
+		}
+		for k := 0; k <= kmax; k++ {
 			if f > 0 || k%p.Slices == p.Slice {
 				ks = append(ks, k)
 			}
@@ -255,11 +277,33 @@ func run(c *mc.Ctx, u mc.Unit) {
 			}
 			break
 		}
-		a.Arm(k)
-		err := a.Process(blk)
-		a.Arm(-1)
+		var err error
+		if p.Cancel {
+			var fired bool
+			err, fired = a.ProcessCancelledAt(k, blk)
+			if !fired {
+				panic(fmt.Sprintf("%s: cancellation hook did not fire at write %d of %d", ctxt, k, K))
+			}
+			c.Witness("attempts_cancelled_mid_transaction")
+			if errors.Is(err, sql.ErrTxDone) {
+				c.Witness("cancelled_attempts_reporting_ErrTxDone")
+			}
+		} else if k > K {
+			a.ArmCommit(true)
+			err = a.Process(blk)
+			a.Arm(-1)
+			c.Witness("attempts_failing_at_commit")
+		} else {
+			a.Arm(k)
+			err = a.Process(blk)
+			a.Arm(-1)
+		}
 		attempts++
-		ctxt += fmt.Sprintf(", fault#%d at write %d -> %v", f+1, k, err != nil)
+		ctxt += fmt.Sprintf(", %s#%d at write %d -> %v", map[bool]string{false: "fault", true: "context-cancelled"}[p.Cancel], f+1, k, err != nil)
+		if err == nil && p.Cancel {
+			c.Failf(fmt.Sprintf("%s/cancellation-swallowed", p.Store), "%s: ProcessBlock returned nil although its transaction was rolled back when the context was cancelled during write %d of %d", ctxt, k, K)
+			return
+		}
 		if err == nil {
 			c.Failf(fmt.Sprintf("%s/fault-swallowed", p.Store), "%s: ProcessBlock returned nil although write %d of %d failed", ctxt, k, K)
 			return
